@@ -645,6 +645,18 @@ static Type *func_params(Token **rest, Token *tok, Type *ty) {
     }
 
     cur = cur->next = copy_type(ty2);
+
+    // A parameter is in scope in the declarators of the parameters
+    // that follow it, as in 'int n, int a[n][n]'.
+    if (cur->name) {
+      Obj *var = calloc(1, sizeof(Obj));
+      var->name = get_ident(cur->name);
+      var->ty = cur;
+      var->align = cur->align;
+      var->is_local = true;
+      push_scope(var->name)->var = var;
+      cur->param_var = var;
+    }
   }
 
   Scope *proto_scope = scope;
@@ -3751,7 +3763,12 @@ static void create_param_lvars(Type *param) {
     create_param_lvars(param->next);
     if (!param->name)
       error_tok(param->name_pos, "parameter name omitted");
-    new_lvar(get_ident(param->name), param);
+
+    // The object was made when the parameter list was read, and its
+    // name is in the scope that the function body continues.
+    Obj *var = param->param_var;
+    var->next = locals;
+    locals = var;
   }
 }
 
